@@ -6,7 +6,7 @@ class C18(BaseCheck):
   ID = 'C18'
   RULE = ('case = random sequence (20-400 ops) of counter/rate/aggregate-timer increments (incl. zero, negative and fractional amounts), gauge sets '
           'and percentile samples issued through freshly constructed Sources drawn from a small pool '
-          'of field tuples (so equal-but-distinct Source objects abound), checked against a dict keyed '
+          'of field tuples (so equal-but-distinct Source objects abound; in every 3rd case a third of them are instances of a subclass of Source), checked against a dict keyed '
           'by the field tuple: per-service aggregates == sums, gauge == last value per tuple, number of '
           'series <= number of distinct tuples; a fifth of the counter / gauge updates go to a second metrics class with the same short names under another base name, judged separately; single-source sample streams of sizes around the '
           '1000-sample reservoir (constant/sorted/random/heavy-tailed): reported percentiles within '
@@ -21,7 +21,7 @@ class C18(BaseCheck):
   REQUIRED_CLASSES = ('counter', 'gauge', 'percentile:below-reservoir', 'percentile:above-reservoir',
                       'full-stack', 'percentile:busy-after-full', 'zero-increment', 'fractional-increment',
                       'overlapping-measure', 'gauge:persistent-objects', 'percentile:second-aggregation',
-                      'sibling-class-same-short-name')
+                      'sibling-class-same-short-name', 'source-subclass')
   ASSUMPTIONS = ('percentile bounds allow 1e-9 relative slack for the linear interpolation',)
   QUICK_CASES = 720
   THOROUGH_CASES = 40000
@@ -66,9 +66,17 @@ class C18(BaseCheck):
     kinds_used = set()
     persistent = {}
     nops = rng.choice([20, 60, 150, 400])
+    sub_case = idx % 3 == 1
+
+    class SubSource(Source):
+      pass
     for _ in range(nops):
       t = rng.choice(tuples)
       src = Source(method=t[0], service=t[1], endpoint=t[2], client_id=t[3])   # fresh object each time
+      if sub_case and rng.random() < 0.3:
+        # an application's convenience subclass of Source: same four fields, so the same source
+        src = SubSource(method=t[0], service=t[1], endpoint=t[2], client_id=t[3])
+        classes.add('source-subclass')
       fresh_uses[t] = fresh_uses.get(t, 0) + 1
       k = rng.choice(['cnt', 'rate', 'agg', 'g', 'cnt-class', 'g'])
       if k in ('cnt', 'g') and rng.random() < 0.2:
